@@ -620,7 +620,13 @@ func c20testdata() string {
 func c20engine(out *rec.Out, builder, file string, k int, conc bool, stats map[string]int) {
 	out.Begin("c20", "engine", builder, file, k, rec.B(conc))
 	defer out.End()
-	src, err := os.ReadFile(filepath.Join(c20testdata(), file))
+	var src []byte
+	var err error
+	if file == "inline:loopfork" {
+		src = []byte(c20loopFork)
+	} else {
+		src, err = os.ReadFile(filepath.Join(c20testdata(), file))
+	}
 	if err != nil {
 		out.Line("panic cannot_read_%s", file)
 		return
@@ -641,6 +647,7 @@ func c20engine(out *rec.Out, builder, file string, k int, conc bool, stats map[s
 		done        bool
 		traces      int
 		pan         string
+		rounds      int
 	}
 	results := make([]res, k)
 	// fallback generators are created one after the other, before the (possibly concurrent) runs: creation within
@@ -698,7 +705,13 @@ func c20engine(out *rec.Out, builder, file string, k int, conc bool, stats map[s
 				case bpmn.NewFlowTrace:
 					r.flows = append(r.flows, hex.EncodeToString(t.FlowId.Bytes()))
 				case bpmn.TaskTrace:
-					t.Do()
+					if aid, ok := t.GetActivity().Element().Id(); ok && *aid == "work" {
+						// (inline:loopfork) the loop's task counts its rounds
+						r.rounds++
+						t.Do(bpmn.DoWithResults(map[string]any{"n": r.rounds}))
+					} else {
+						t.Do()
+					}
 				case bpmn.CeaseFlowTrace:
 					r.done = true
 					break loop
@@ -740,6 +753,30 @@ func c20engine(out *rec.Out, builder, file string, k int, conc bool, stats map[s
 	}
 	stats["cases"]++
 }
+
+// c20loopFork: ONE token forks again and again over the same sequence flow (a loop through a parallel split): every token
+// it splits off is a new token with an id of its own — start -> work -> fork ; fork -> x -[n < 3]-> work ; x -> end1 ;
+// fork -> side -> end2 (`work` writes n = 1, 2, 3)
+const c20loopFork = `<?xml version="1.0" encoding="UTF-8"?>
+<bpmn:definitions xmlns:bpmn="http://www.omg.org/spec/BPMN/20100524/MODEL" xmlns:olive="http://olive.io/spec/BPMN/MODEL" xmlns:xsi="http://www.w3.org/2001/XMLSchema-instance" id="defs" targetNamespace="http://bpmn.io/schema/bpmn">
+ <bpmn:process id="proc" isExecutable="true">
+  <bpmn:startEvent id="start"><bpmn:outgoing>f0</bpmn:outgoing></bpmn:startEvent>
+  <bpmn:task id="work"><bpmn:incoming>f0</bpmn:incoming><bpmn:incoming>f_again</bpmn:incoming><bpmn:outgoing>f1</bpmn:outgoing>
+   <bpmn:extensionElements><olive:results><olive:field name="n" type="integer"/></olive:results></bpmn:extensionElements></bpmn:task>
+  <bpmn:parallelGateway id="fork"><bpmn:incoming>f1</bpmn:incoming><bpmn:outgoing>f_main</bpmn:outgoing><bpmn:outgoing>f_side</bpmn:outgoing></bpmn:parallelGateway>
+  <bpmn:exclusiveGateway id="x" default="f_done"><bpmn:incoming>f_main</bpmn:incoming><bpmn:outgoing>f_again</bpmn:outgoing><bpmn:outgoing>f_done</bpmn:outgoing></bpmn:exclusiveGateway>
+  <bpmn:task id="side"><bpmn:incoming>f_side</bpmn:incoming><bpmn:outgoing>f2</bpmn:outgoing></bpmn:task>
+  <bpmn:endEvent id="end1"><bpmn:incoming>f_done</bpmn:incoming></bpmn:endEvent>
+  <bpmn:endEvent id="end2"><bpmn:incoming>f2</bpmn:incoming></bpmn:endEvent>
+  <bpmn:sequenceFlow id="f0" sourceRef="start" targetRef="work"/>
+  <bpmn:sequenceFlow id="f1" sourceRef="work" targetRef="fork"/>
+  <bpmn:sequenceFlow id="f_main" sourceRef="fork" targetRef="x"/>
+  <bpmn:sequenceFlow id="f_side" sourceRef="fork" targetRef="side"/>
+  <bpmn:sequenceFlow id="f_again" sourceRef="x" targetRef="work"><bpmn:conditionExpression xsi:type="bpmn:tFormalExpression">n &lt; 3</bpmn:conditionExpression></bpmn:sequenceFlow>
+  <bpmn:sequenceFlow id="f_done" sourceRef="x" targetRef="end1"/>
+  <bpmn:sequenceFlow id="f2" sourceRef="side" targetRef="end2"/>
+ </bpmn:process>
+</bpmn:definitions>`
 
 // c20snapConc: per round one fresh generator; one goroutine draws 40 ids from it while another takes snapshots of it the
 // whole time (an instance persisted by a background saver while it runs). When both have stopped a last, quiet snapshot is
@@ -932,7 +969,7 @@ func c20(out *rec.Out, rng *rec.Rng, tier string, stats map[string]int) {
 	c20fbCreate(out, "conc", nc, stats)
 	// 5. engine level
 	files := []string{"task.bpmn", "parallel_gateway_fork_join.bpmn", "exclusive_gateway.bpmn", "inclusive_gateway.bpmn",
-		"parallel_gateway_m_n.bpmn", "sample.bpmn"}
+		"parallel_gateway_m_n.bpmn", "sample.bpmn", "inline:loopfork"}
 	builders := []string{"sno", "fallback", "shared"}
 	k := 4
 	if thorough {
